@@ -107,6 +107,8 @@ func c20Handlers() []c20Handler {
 		{"SSO-from-A-without-session", form("/sso", sso(c19EntA), false)},
 		{"LOGIN-with-a-wrong-password", form("/login", url.Values{"user": {"alice"}, "password": {"nope"}}, false)},
 		{"GET-login-page", plain("GET", "/login", "", false)},
+		// credentials beyond what the hash function takes (72 octets): refused, like any wrong password
+		{"LOGIN-with-an-over-long-password", form("/login", url.Values{"user": {"alice"}, "password": {"p1" + strings.Repeat("x", 80)}}, false)},
 	}
 }
 
@@ -294,6 +296,45 @@ func runC20(c *core.Ctx) {
 				note(c20LateBody(t, hs[up], hs[other]))
 			})
 		}
+	}
+
+	// no request uses up something the next one needs: on one long-lived server, after any handler has been served six times over,
+	// every handler is still served (each request under a deadline)
+	c.Group("every-request-completes-however-often-it-was-made-before")
+	for i := range hs {
+		i := i
+		c.Case("repeated/"+hs[i].name+"-x6-then-every-handler", func(t *core.T) {
+			t.NonTrivial()
+			if c19Hung {
+				t.Outcome("skipped-after-a-hang")
+				return
+			}
+			srv, _ := c20Server()
+			n := 0
+			serve := func(h c20Handler, what string) bool {
+				w := &strictWriter{hdr: http.Header{}}
+				n++
+				if !returnsWithin(20*time.Second, func() { srv.ServeHTTP(w, h.req()) }) {
+					c19Hung = true
+					t.Fail("C20/deadlock/request-never-returns-after-earlier-requests", "%s did not return within 20 s on a server that had served %d requests one after the other (no two at the same time)", what, n-1)
+					return false
+				}
+				return true
+			}
+			for k := 0; k < 6; k++ {
+				if !serve(hs[i], fmt.Sprintf("%s (time %d)", hs[i].name, k+1)) {
+					return
+				}
+			}
+			for _, g := range hs {
+				if !serve(g, g.name+" after six times "+hs[i].name) {
+					return
+				}
+			}
+			t.Impl(n)
+			t.Compared()
+			t.Outcome("all-served")
+		})
 	}
 
 	c.Group("store-linearizability")
